@@ -212,6 +212,16 @@ def extra(ctx, args):
                                    capture_output=True, text=True, env=env, timeout=900)
                 if r.returncode == 1 and "VIOLATION" in r.stdout:
                     return pf, "reported", ""
+                # changes the rules are known not to report (DESIGN 8d, round 5: relations between values no shape of the code shows,
+                # or an operator the model does not know) are recorded in their meta.json (`check.exit` 0 or 2) and listed, not failed
+                try:
+                    import json as _json
+                    with open(os.path.join(os.path.dirname(pf), "meta.json")) as fh:
+                        rec = (_json.load(fh).get("check") or {}).get("exit")
+                except Exception:
+                    rec = None
+                if rec in (0, 2):
+                    return pf, "recorded-unreported", f"exit {r.returncode}"
                 return pf, "missed", f"exit {r.returncode}"
             finally:
                 shutil.rmtree(tmp, ignore_errors=True)
@@ -224,4 +234,5 @@ def extra(ctx, args):
                            "needs attention", derived=out)
         ctx.ok(f"R{ctx.pid[1:]}.live", "<seeded replay>",
                f"{sum(1 for _, st, _ in sr if st == 'reported')} stored breaking changes reported, "
+               f"{sum(1 for _, st, _ in sr if st == 'recorded-unreported')} recorded as not reported by these rules (DESIGN 8d, round 5), "
                f"{sum(1 for _, st, _ in sr if st == 'skipped')} skipped because their patch no longer applies to this tree")
